@@ -1077,7 +1077,28 @@ def check_convention(ctx: Check, tree: Tree) -> None:
     ctx.verdict(ok, "R-CONVENTION", f"{gk.qual}::angles-of-children0", tree.loc(gk.node),
                 "_generate_kinematic_variables: (phi, theta) are the angle symbols of decay.children[0] (the helicity state)", None if ok else repr(res)[:200])
     fn = tree.func("ampform.helicity::formulate_isobar_wigner_d")
-    val = te.eval_function(fn, [transition, node_id])
+    # options: further parameters (with defaults) that some caller in the package binds to something else than the default -
+    # the property quantifies over every builder configuration, so such a parameter is ANY value and every path is judged
+    a = fn.node.args
+    names = [x.arg for x in [*a.posonlyargs, *a.args]]
+    defaults = dict(zip(reversed(names), reversed(a.defaults)))
+    defaults.update({x.arg: d for x, d in zip(a.kwonlyargs, a.kw_defaults) if d is not None})
+    open_options: dict = {}
+    for mod in tree.modules.values():
+        for n in ast.walk(mod.tree):
+            if not (isinstance(n, ast.Call) and getattr(n, "_module", None) is not None and tree.callee(n, tree.func_of(n)) == fn.qual):
+                continue
+            given = {**{names[i]: x for i, x in enumerate(n.args) if i < len(names) and not isinstance(x, ast.Starred)}, **{k.arg: k.value for k in n.keywords if k.arg}}
+            if any(isinstance(x, ast.Starred) for x in n.args) or any(k.arg is None for k in n.keywords):
+                raise AnalysisError(f"{fn.qual}: a call site passes starred arguments: which options it sets cannot be read")
+            for opt, value in given.items():
+                if opt in names[:2]:
+                    continue
+                same_as_default = opt in defaults and isinstance(value, ast.Constant) and isinstance(defaults[opt], ast.Constant) and value.value == defaults[opt].value
+                if not same_as_default:
+                    open_options[opt] = Opaque(("option", opt))
+    te.fork = bool(open_options) or te.fork
+    val = te.eval_function(fn, [transition, node_id], dict(open_options))
     want = {"alpha": -phi, "beta": theta, "gamma": RF.const(0)}
     problems = []
     for branch in (val.branches if isinstance(val, PW) else [(val, None)]):
@@ -1089,6 +1110,7 @@ def check_convention(ctx: Check, tree: Tree) -> None:
         if unread:
             raise AnalysisError(f"formulate_isobar_wigner_d: cannot read the argument(s) {unread} of the Wigner D (got {sorted(got)})")
         problems += [f"{k} = {got.get(k)!r} is not {'-phi' if k == 'alpha' else 'theta' if k == 'beta' else '0'}" + (" of decay.children[0]" if k != "gamma" else "")
+                     + (f" on the path {branch[1]!r:.90} (option {sorted(open_options)} set by a caller)" if open_options and branch[1] is not None else "")
                      for k, w in want.items() if not _same(te, got.get(k), w)]
     ctx.verdict(not problems, "R-CONVENTION", f"{fn.qual}::euler-angles", tree.loc(fn.node),
                 "Wigner-D of a decay node takes (alpha, beta, gamma) = (-phi, theta, 0): the conjugate of the frame rotation R_y(-theta) R_z(-phi)", problems or None)
